@@ -929,13 +929,13 @@ def inline_helpers(mir, s, max_rounds=4, skip=()):
     if not hasattr(mir, "_short_index"):
         idx = {}
         for f in mir.fns.values():
-            if f.kind in ("Fn", "AssocFn") and not f.derived:
+            if f.kind in ("Fn", "AssocFn", "Closure") and not f.derived:
                 idx.setdefault(short_path(f.path), []).append(f)
         mir._short_index = {k: v[0] for k, v in idx.items() if len(v) == 1}
         mir._ret_cache = {}
     for _ in range(max_rounds):
         changed = False
-        for m in list(re.finditer(r"((?:\w+::)+\w+)\(", s)):
+        for m in list(re.finditer(r"((?:\w+::)+(?:\w+|\{closure#\d+\}))\(", s)):
             name = m.group(1)
             f = mir._short_index.get(name)
             if f is None or name in skip:
@@ -950,11 +950,24 @@ def inline_helpers(mir, s, max_rounds=4, skip=()):
             if r is None:
                 continue
             args, end = _split_args(s, m.end() - 1)
-            if args is None or len(args) != len(f.inputs):
+            if args is None:
                 continue
             body = re.sub(r"\bparam(\d+)\b", lambda mm: "\x00%d\x00" % int(mm.group(1)), r)
-            for i_, a_ in enumerate(args):
-                body = body.replace("\x00%d\x00" % (i_ + 1), a_)
+            if f.kind == "Closure":
+                # a called closure: first argument is its environment `name{cap0, cap1}`, captures are read as param1.K
+                me = re.match(r"^%s\{(.*)\}$" % re.escape(name), args[0]) if args else None
+                if not me:
+                    continue
+                caps, _e = _split_args("(" + me.group(1) + ")", 0)
+                for k_, c_ in enumerate(caps or []):
+                    body = body.replace("\x001\x00.%d" % k_, c_)
+                for i_, a_ in enumerate(args[1:]):
+                    body = body.replace("\x00%d\x00" % (i_ + 2), a_)
+            else:
+                if len(args) != len(f.inputs):
+                    continue
+                for i_, a_ in enumerate(args):
+                    body = body.replace("\x00%d\x00" % (i_ + 1), a_)
             if "\x00" in body:
                 continue
             s = s[:m.start()] + body + s[end:]
